@@ -66,11 +66,28 @@ func lemma_C17_state_preserved(role bool, integSel, encrSel uint8, ai, ar, ei, e
 	ci, cr := sa.Encr_i.(*encr.EncrAesCbcCrypto), sa.Encr_r.(*encr.EncrAesCbcCrypto)
 	bi, br, ii, ir := ci.Block, cr.Block, sa.Integ_i, sa.Integ_r
 	m := verifMsg1(1, 2, 2, 0, 37, 8, 3, data)
+	// frame: protect writes to nothing that existed before the call except the message
+	// object it was handed (payload list and header) and the buffered input of the hash
+	// objects - in particular to no field of the SA or of its cipher objects, whether
+	// that field exists today or is added later
+	fp := verifFrameBegin()
+	verifFrameAllow(fp, m)
+	verifFrameAllow(fp, m.IKEHeader)
+	verifFrameAllowKind(fp, "ghost:hmac.buf")
 	_, _ = EncodeEncrypt(m, sa, message.Role(role))
+	verifFrameEnd(fp, "C01+C06+C17+C18+C20/protect-writes-only-the-message-object-and-hash-input")
 	verifAssert(sa.Encr_i == ci && sa.Encr_r == cr && sa.Integ_i == ii && sa.Integ_r == ir && ci.Block == bi && cr.Block == br && ci.Iv == nil && ci.Padding == nil && cr.Iv == nil && cr.Padding == nil, "C17/protect-leaves-the-key-objects-as-they-were")
 	r := new(message.IKEMessage)
 	r.IKEHeader = new(message.IKEHeader)
 	r.Payloads.BuildEncrypted(message.IkePayloadType(next), skBody)
+	fu := verifFrameBegin()
+	verifFrameAllow(fu, r)
+	verifFrameAllow(fu, r.IKEHeader)
+	verifFrameAllowKind(fu, "ghost:hmac.buf")
+	// (the inner payload decoder is used through its contract here, which does not say
+	// that the payload list it appends to starts out empty: the list's storage is exempt)
+	verifFrameAllowKind(fu, "[]message.IKEPayload.")
 	_, _ = decryptMsg(msg, r, sa, message.Role(role))
+	verifFrameEnd(fu, "C01+C06+C17+C18+C20/unprotect-writes-only-the-message-object-and-hash-input")
 	verifAssert(sa.Encr_i == ci && sa.Encr_r == cr && sa.Integ_i == ii && sa.Integ_r == ir && ci.Block == bi && cr.Block == br && ci.Iv == nil && ci.Padding == nil && cr.Iv == nil && cr.Padding == nil, "C17/unprotect-leaves-the-key-objects-as-they-were")
 }
